@@ -701,12 +701,59 @@ def register_generic_samplers(reg):
                 k = arith("+", k, SV(z3.If(tobool(b), z3.IntVal(1), z3.IntVal(0))))
         return k
 
+    def replay_un(inputs, clause):
+        """The real UnionRegion.genericSampler on unions of real polygons (same plane / different planes / three operands)
+        with the acceptance draw scripted; the multiplicity of each drawn point is recomputed with shapely at the
+        operand's own height (a point can be produced by an operand only if it lies in that operand's plane)."""
+        import random
+
+        import shapely.geometry as sg
+
+        from scenic.core.distributions import RejectionException
+        from scenic.core.regions import PolygonalRegion, UnionRegion
+
+        sq = lambda x0, y0, x1, y1: [(x0, y0), (x1, y0), (x1, y1), (x0, y1)]
+        cases = [
+            ("two overlapping squares in the plane z = 0", [(sq(0, 0, 2, 2), 0), (sq(1, 0, 3, 2), 0)]),
+            ("the same square at z = 0 and at z = 5", [(sq(0, 0, 2, 2), 0), (sq(0, 0, 2, 2), 5)]),
+            ("three squares, two in the plane z = 0 and one at z = 3", [(sq(0, 0, 2, 2), 0), (sq(1, 1, 3, 3), 0), (sq(0, 0, 3, 3), 3)]),
+        ]
+        real_random = random.random
+        try:
+            for name, ops in cases:
+                regs = [PolygonalRegion(pts, z=z) for pts, z in ops]
+                polys = [(sg.Polygon(pts), z) for pts, z in ops]
+                U = UnionRegion(*regs)
+                for i in range(60):
+                    u = (0.25, 0.75, 0.6, 0.4)[i % 4]
+                    random.seed(1000 + i)
+                    random.random = lambda u=u: u
+                    try:
+                        pt = UnionRegion.genericSampler(U)
+                        rejected = False
+                    except RejectionException:
+                        rejected = True
+                    finally:
+                        random.random = real_random
+                    # recompute the drawn point (same seed, no scripted value needed before the acceptance draw)
+                    random.seed(1000 + i)
+                    target = random.choices(tuple(regs), weights=tuple(r.size for r in regs))[0]
+                    p = target.uniformPointInner()
+                    k = sum(1 for poly, z in polys if abs(p.z - z) < 1e-9 and poly.buffer(1e-9).contains(sg.Point(p.x, p.y)))
+                    want = u < 1 - 1 / k
+                    if rejected != want:
+                        return f"union of {name}: point {tuple(round(c, 4) for c in p)} can be produced by {k} operand(s), acceptance draw u = {u}: the sample was {'rejected' if rejected else 'accepted'}, but it is rejected exactly when u < 1 - 1/{k}"
+        finally:
+            random.random = real_random
+        return None
+
     reg.add(
         C.Contract(
             f"{RG}:UnionRegion.genericSampler",
             params=dict(union=C.Const(None)),
             setup=setup_un,
             post=post_un,
+            replay=replay_un,
             raises=[C.Raises("RejectionException", mode="may"), C.Raises("UndefinedSamplingException", mode="may")],
             inline_all=True,
             bounded=True,
